@@ -69,12 +69,18 @@ type rec []int
 
 func serialOf(hi, lo int) uint32 { return uint32(hi)<<16 | uint32(lo) }
 
+const fatRec = 1000
+
 func toRR(r rec) dns.RR {
 	var s string
 	if r[0] == 1 {
 		s = fmt.Sprintf("%s 3600 IN SOA ns.example. host.example. %d 7200 3600 1209600 3600", zone, serialOf(r[1], r[2]))
 	} else {
 		s = fmt.Sprintf("r%d.%s 3600 IN TXT \"record %d\"", r[1], zone, r[1])
+		if r[1] >= fatRec { // a record of about 800 octets: ninety of them do not fit one message
+			x := strings.Repeat("x", 255)
+			s += fmt.Sprintf(" \"%s\" \"%s\" \"%s\"", x, x, x)
+		}
 	}
 	rr, err := dns.NewRR(s)
 	if err != nil {
@@ -90,7 +96,8 @@ func fromRR(rr dns.RR) rec {
 		return rec{1, int(x.Serial >> 16), int(x.Serial & 0xffff)}
 	case *dns.TXT:
 		var id int
-		if _, err := fmt.Sscanf(x.Hdr.Name, "r%d."+zone, &id); err == nil && len(x.Txt) == 1 && x.Txt[0] == fmt.Sprintf("record %d", id) {
+		if _, err := fmt.Sscanf(x.Hdr.Name, "r%d."+zone, &id); err == nil && len(x.Txt) >= 1 && x.Txt[0] == fmt.Sprintf("record %d", id) &&
+			((id < fatRec && len(x.Txt) == 1) || (id >= fatRec && len(x.Txt) == 4 && len(x.Txt[1])+len(x.Txt[2])+len(x.Txt[3]) == 765)) {
 			return rec{0, id}
 		}
 	}
@@ -158,6 +165,7 @@ type script struct {
 	fatEnv, fatSize int
 	// the consumer of the channel pauses for `pause' after it received its slowAfter-th envelope (0 = never);
 	// the transfer runs with ReadTimeout = readTimeout (0 = default)
+	qd          string // question section of every envelope after the first: "" as in the query, "none" omitted, "two" two questions
 	slowAfter   int
 	pause       time.Duration
 	readTimeout time.Duration
@@ -227,6 +235,14 @@ func build(s *script, queryOctets []byte) []envelope {
 		m.Extra = nil
 		m.Ns = nil
 		m.Authoritative = true
+		if i > 1 { // RFC 5936 2.2.2: only the first message must repeat the question
+			switch s.qd {
+			case "none":
+				m.Question = nil
+			case "two":
+				m.Question = append(m.Question, dns.Question{Name: "second." + zone, Qtype: dns.TypeTXT, Qclass: dns.ClassINET})
+			}
+		}
 		for _, r := range e.Recs {
 			m.Answer = append(m.Answer, toRR(r))
 		}
@@ -513,6 +529,7 @@ func replay(path string) {
 			for _, c := range cuts {
 				s.eof, s.cutAt = eof, c
 				s.seg = []string{"", "prefix", "byte"}[(i+len(cuts)+b2i(eof))%3]
+				s.qd = []string{"", "none", "two", "none"}[(i/3+b2i(eof))%4]
 				try()
 				if len(cuts) == 1 {
 					s.seg = []string{"byte", "", "prefix"}[(i+b2i(eof))%3]
@@ -520,7 +537,7 @@ func replay(path string) {
 				}
 			}
 		}
-		s.eof, s.cutAt, s.seg = i%2 == 0, 0, ""
+		s.eof, s.cutAt, s.seg, s.qd = i%2 == 0, 0, "", ""
 		// a sample: one segment boundary at every offset of the stream
 		if every := 307; (hx.Thorough() && i%61 == 0) || i%every == 0 {
 			probe := s
@@ -624,7 +641,7 @@ func one(v *vec, s *script, sum *hx.Summary) {
 		return
 	}
 	pre := "xfr/in-" + v.Mode + ":"
-	what := fmt.Sprintf("%s q=%d stream=%v partition=%v tsig=%v fault=%v tail=%v eof=%v seg=%s@%d fat=%d:%d: ", v.Mode, numeric(v.Q), v.R, v.Lens, v.Tsig, v.Fault, v.Tail, s.eof, s.seg, s.segAt, s.fatEnv, s.fatSize)
+	what := fmt.Sprintf("%s q=%d stream=%v partition=%v tsig=%v fault=%v tail=%v eof=%v seg=%s@%d fat=%d:%d later-questions=%q: ", v.Mode, numeric(v.Q), v.R, v.Lens, v.Tsig, v.Fault, v.Tail, s.eof, s.seg, s.segAt, s.fatEnv, s.fatSize, s.qd)
 	got := fmt.Sprintf("delivered %v, error %q", obs.Delivered, obs.ErrText)
 	if !obs.ChClosed || !obs.ConnClose {
 		sum.Mis(pre+"not-closed", what+fmt.Sprintf("channel closed %v, connection closed %v", obs.ChClosed, obs.ConnClose), v)
@@ -809,6 +826,7 @@ func recordIn(out string, n int) {
 		}
 		s.seg = []string{"", "byte", "prefix", "at"}[rnd.Intn(4)]
 		s.segAt = 1 + rnd.Intn(300)
+		s.qd = []string{"", "none", "two"}[rnd.Intn(3)]
 		if rnd.Intn(4) == 0 {
 			s.fatEnv = 1 + rnd.Intn(k)
 			s.fatSize = []int{4095, 4096, 4097, 5000, 16383, 16384, 16385, 40000, 65534, 65535}[rnd.Intn(10)]
@@ -826,7 +844,7 @@ func recordIn(out string, n int) {
 			continue
 		}
 		w.Emit(inEvent{Ev: "in", I: c + 1, Mode: s.mode, Q: []int{s.q[0], s.q[1]}, Tsig: s.tsig, EOF: s.eof, Envs: envs, Obs: obs,
-			Desc: fmt.Sprintf("%s, %d records in %d envelopes, faults %v, tail %v, segmentation %s@%d, envelope %d padded to %d octets, consumer pausing after envelope %d", desc, len(R), len(lens), s.faults, s.tail, s.seg, s.segAt, s.fatEnv, s.fatSize, s.slowAfter)})
+			Desc: fmt.Sprintf("%s, %d records in %d envelopes, faults %v, tail %v, segmentation %s@%d, envelope %d padded to %d octets, consumer pausing after envelope %d, later questions %q", desc, len(R), len(lens), s.faults, s.tail, s.seg, s.segAt, s.fatEnv, s.fatSize, s.slowAfter, s.qd)})
 	}
 	sum.Nontrivial = w.N
 	sum.Print()
@@ -846,6 +864,7 @@ type tsigEv struct {
 	Secrets map[string]int `json:"secrets"`
 	Got     string         `json:"got"`
 	Signed  bool           `json:"signed"`
+	Handed  []int          `json:"handed,omitempty"` // env: the clock when the envelope was handed to Transfer.Out
 }
 
 type outEvent struct {
@@ -858,6 +877,8 @@ type outEvent struct {
 	IDs    bool    `json:"ids"`    // every message carried the query's ID, QR and AA set, RCODE 0
 	Signed  int    `json:"signed"`  // messages carrying a TSIG
 	Variant string `json:"variant"` // the request was "signed" (and verifies), signed with a "badsecret", or "unsigned"
+	OutErr  bool   `json:"outerr"`  // Transfer.Out returned an error to the handler
+	Desc    string `json:"desc"`
 }
 
 func limbs48(t uint64) []int { return []int{int(t >> 32 & 0xffff), int(t >> 16 & 0xffff), int(t & 0xffff)} }
@@ -885,24 +906,50 @@ func recordOut(out string, n int) {
 		err    error
 		signed bool
 	}
+	handlerDone := make(chan struct{}, 16)
+	var pauseBefore int // the handler waits 2.1 s before handing over this chunk (-1: never)
+	var handed []uint64 // the clock when each chunk was handed to Transfer.Out
+	var outErr error
 	handler := dns.HandlerFunc(func(rw dns.ResponseWriter, req *dns.Msg) {
 		mu.Lock()
-		chunks := feed
+		chunks, pb := feed, pauseBefore
 		status.err, status.signed = rw.TsigStatus(), req.IsTsig() != nil
 		mu.Unlock()
 		ch := make(chan *dns.Envelope)
 		tr := new(dns.Transfer)
 		done := make(chan error, 1)
 		go func() { done <- tr.Out(rw, req, ch) }()
-		for _, c := range chunks {
+		var times []uint64
+		var err error
+		returned := false
+	feeding:
+		for k, c := range chunks {
 			e := &dns.Envelope{}
 			for _, r := range c {
 				e.RR = append(e.RR, toRR(r))
 			}
-			ch <- e
+			if k == pb {
+				time.Sleep(2100 * time.Millisecond)
+			}
+			times = append(times, uint64(time.Now().Unix()))
+			select {
+			case ch <- e:
+			case err = <-done: // Out gave up (an envelope that does not fit a message, a write error)
+				returned = true
+				break feeding
+			}
 		}
 		close(ch)
-		<-done // the connection is left to the server loop: the next request may follow
+		if !returned {
+			err = <-done
+		}
+		mu.Lock()
+		handed, outErr = times, err
+		mu.Unlock()
+		handlerDone <- struct{}{}
+		if err != nil {
+			rw.Close() // the transfer is aborted; otherwise the connection is left to the server loop: the next request may follow
+		}
 	})
 	ln := pipe.NewListener()
 	srv := &dns.Server{Listener: ln, Handler: handler, TsigSecret: map[string]string{keyName: secret}}
@@ -935,11 +982,36 @@ func recordOut(out string, n int) {
 				rest -= l
 			}
 			chunks := chunksOf(R, lens)
+			special := ""
+			switch {
+			case serialNo == 0:
+				// ONE transfer whose last envelope is handed over 2.1 s after the others: the time signed of every
+				// envelope must be the time of ITS signing (a stub shared by all envelopes keeps the first one's)
+				special = "late last envelope"
+				if len(chunks) < 2 {
+					chunks = [][]rec{R[:1], R[1:]}
+				}
+			case serialNo == 1 || rnd.Intn(12) == 0:
+				// an envelope of ninety 800-octet records: it cannot be packed into one 64 KiB message; the sender must
+				// say so (Out returns an error) -- or get every record across
+				special = "oversized envelope"
+				big := []rec{}
+				for id := 0; id < 90; id++ {
+					big = append(big, rec{0, fatRec + id})
+				}
+				chunks = [][]rec{R[:1], big, R[len(R)-1:]}
+			}
 			mu.Lock()
-			feed = chunks
+			feed, pauseBefore = chunks, -1
+			if special == "late last envelope" {
+				pauseBefore = len(chunks) - 1
+			}
 			mu.Unlock()
 			// the signing of the request: honest (mostly), wrong secret, or none
 			variant := []string{"signed", "signed", "signed", "signed", "badsecret", "unsigned"}[rnd.Intn(6)]
+			if special == "late last envelope" {
+				variant = "signed"
+			}
 			q := new(dns.Msg)
 			q.SetAxfr(zone)
 			q.Id = uint16(rnd.Intn(1 << 16))
@@ -973,16 +1045,24 @@ func recordOut(out string, n int) {
 			}
 			sum.Evaluations++
 			serialNo++
+			select {
+			case <-handlerDone:
+			case <-time.After(30 * time.Second):
+				hx.Die("the transfer handler did not return")
+			}
 			mu.Lock()
-			st := status
+			st, times, oerr := status, handed, outErr
 			mu.Unlock()
 			what := fmt.Sprintf("%s, request %d of %d on its connection", variant, rq+1, nreq)
+			if special != "" {
+				what += ", " + special
+			}
 			// (1) what the server said about the request's TSIG: judged like any verification
 			idx++
 			w.Emit(tsigEv{Ev: "verify", I: idx, What: "server:" + what, Octets: hx.FromBytes(qo), Reqmac: hx.B{}, Now: limbs48(now),
 				Via: "server", Secrets: tab, Got: errTextOf(st.err), Signed: st.signed})
 			// (2) the envelopes on the wire: a session chained on the MAC of this request
-			ev := outEvent{Ev: "out", I: serialNo, Mode: "axfr", Q: []int{0, 0}, Chunks: chunks, Wire: [][]rec{}, IDs: true, Variant: variant}
+			ev := outEvent{Ev: "out", I: serialNo, Mode: "axfr", Q: []int{0, 0}, Chunks: chunks, Wire: [][]rec{}, IDs: true, Variant: variant, OutErr: oerr != nil, Desc: what}
 			w.Emit(tsigEv{Ev: "q", I: 0, What: what, Octets: hx.FromBytes(qo), Reqmac: hx.B{}, Now: limbs48(now), Secrets: tab})
 			prevMAC := ""
 			if qm := new(dns.Msg); qm.Unpack(qo) == nil && qm.IsTsig() != nil {
@@ -1005,14 +1085,18 @@ func recordOut(out string, n int) {
 				// the server answers a verified request with a signed chain
 				idx++
 				tnow := uint64(time.Now().Unix())
-				w.Emit(tsigEv{Ev: "env", I: idx, What: "out: " + what, Octets: hx.FromBytes(p), Reqmac: hx.B{}, Now: limbs48(tnow),
-					Via: "server-out", Secrets: tab, Got: ""})
+				ee := tsigEv{Ev: "env", I: idx, What: "out: " + what, Octets: hx.FromBytes(p), Reqmac: hx.B{}, Now: limbs48(tnow),
+					Via: "server-out", Secrets: tab, Got: ""}
+				if k := len(ev.Wire) - 1; k < len(times) {
+					ee.Handed = limbs48(times[k])
+				}
+				w.Emit(ee)
 				// ... and single-bit alterations of the envelope, verified the way Transfer.ReadMsg does it: against the MAC
 				// of the previous message, timers only from the second envelope on (every bit of the first two
 				// envelopes of the first transfers, a sample elsewhere)
 				first := len(ev.Wire) == 1
 				for b := 0; b < 8*len(p); b++ {
-					if (serialNo > 2 || len(ev.Wire) > 2) && rnd.Intn(8*len(p)) >= 64 {
+					if (serialNo > 4 || len(ev.Wire) > 2 || len(p) > 2000) && rnd.Intn(8*len(p)) >= 64 {
 						continue
 					}
 					o := append([]byte(nil), p...)
@@ -1028,8 +1112,8 @@ func recordOut(out string, n int) {
 				}
 			}
 			wx.Emit(ev)
-			if len(msgs) != len(chunks) {
-				break // the connection is out of step: abandon it (Trace_Xfr reports the short answer)
+			if len(msgs) != len(chunks) || oerr != nil {
+				break // the connection is out of step or closed by the handler: abandon it (Trace_Xfr reports the short answer)
 			}
 		}
 		conn.Close()
